@@ -3,6 +3,9 @@
 spec/Logging.tla, spec/LogRotation.tla.  Binding:
   spec -> code : every behaviour of Gen_Logging (exhaustive to depth D) is replayed on a real
                  Dispatcher + Modules + RemoteLogHandler, state compared after every step;
+                 the local sinks (console, main / node log file, comlog files) over the configuration
+                 alphabet are replayed on a real MainLogger().init in a temporary logdir with the node
+                 logger made as Server makes it, a real Communicator (HasComlog) and a patched clock;
                  every rotation behaviour of Gen_LogRotation is executed on the real
                  LogfileHandler in a temporary directory.
   code -> spec : random long histories / random directories are recorded and validated by
@@ -23,9 +26,15 @@ META = {
             'connections) and the rotation rule; every depth-bounded behaviour TLC enumerates is replayed on the real '
             'Dispatcher + RemoteLogHandler with the level table and the set of receivers compared after each step, and '
             'recorded random histories / directory listings of the real LogfileHandler are validated by TLC against '
-            'Trace_Logging / Trace_LogRotation. Bounded (depth, 3 connections, 2 modules), exhaustive inside the bound.',
+            'Trace_Logging / Trace_LogRotation. The local sinks of a record (console, log file of the main logger and of '
+            'the node, comlog file of a communicator; retention per sink) are specified in the same module over the '
+            'configuration alphabet logfile_level / console level / comlog switches / retention days and bound the same '
+            'two ways on the real MainLogger, LogfileHandler.getChild, HasComlog and ComLogfileHandler. '
+            'Bounded (depth, 3 connections, 2 modules, 4 days), exhaustive inside the bound.',
     'note': 'Trusted: TLC; the small alpha/gamma glue in harness/props/c20.py (fake connections, patched clock of '
-            'mlzlog); numeric level values and unknown module names in logging requests are outside the alphabet.',
+            'mlzlog, captured console stream, classification of the files below the temporary logdir); numeric level values '
+            'and unknown module names in logging requests are outside the alphabet; an empty logdir together with '
+            'comlog (reachable with testinit only) and a second Server of the same name in one process are not explored.',
     'tech': 'TLA+ spec (Logging.tla, LogRotation.tla) + TLC model checking; spec->code replay of all TLC behaviours; '
             'code->spec TLC trace validation',
     'ref': 'DESIGN.md section 5 C20',
@@ -351,6 +360,406 @@ def _run_rotation(case):
         mlzlog.time = saved
         shutil.rmtree(d, ignore_errors=True)
     return trace
+
+
+# ------------------------------------------------------------------ local sinks world
+
+LEVELNAME = {'debug': 'DEBUG', 'comlog': 'COMLOG', 'info': 'INFO', 'warning': 'WARNING', 'error': 'ERROR'}
+NODE = 'node'
+ROOT = 'frappy'
+COMMODS = ['m1']
+
+
+def _gen_config(cfg, logdir):
+    """gamma: the abstract configuration as generalConfig keys (values as a config file gives them: strings)"""
+    gc = {'logger_root': ROOT, 'omit_unchanged_within': 0}
+    if cfg['file'] == 'nodir':
+        gc['logdir'] = ''
+    else:
+        gc['logdir'] = logdir
+        if not (cfg['file'] == 'info' and cfg['con'] != 'info'):     # 'info' is also the default
+            gc['logfile_level'] = cfg['file']
+    if cfg['fdays']:
+        gc['logfile_days'] = str(cfg['fdays'])
+    elif cfg['cdays'] != 7:
+        gc['logfile_days'] = '0'                                    # else: not configured = unlimited
+    if cfg['cdays'] != 7:
+        gc['comlog_days'] = str(cfg['cdays'])                       # 7 is the default
+    if cfg['gcomlog']:
+        gc['comlog'] = True
+    elif not cfg['mcomlog']:
+        gc['comlog'] = False                                        # else: not configured = off
+    return gc
+
+
+class SinkWorld:
+    """a real MainLogger().init on a temporary logdir, the node's logger made as frappy.server.Server makes it
+    (own directory, RemoteLogHandler installed by init_remote_logging), a real dispatcher, module loggers as the
+    SecNode makes them, communicators using HasComlog; the clock of mlzlog is stepped in days.
+    close() restores every piece of global state touched."""
+
+    def __init__(self, cfg, mods, conns):
+        boot()
+        import io
+        import logging
+        import sys
+        import mlzlog
+        import frappy.logging as fl
+        from frappy.lib import generalConfig
+        from frappy.protocol.dispatcher import Dispatcher
+
+        os.environ['TZ'] = 'UTC'
+        _time.tzset()
+        self.cfg = cfg
+        self.modnames = list(mods)
+        self.fl = fl
+        self.dir = tempfile.mkdtemp(prefix='sink-')
+        self.logdir = os.path.join(self.dir, 'log')
+        self.cwd = os.path.join(self.dir, 'cwd')          # a relative path would show up here
+        os.makedirs(self.cwd)
+        self.now = now = [DAY0]
+        self.day = 1
+        self.stepno = 0
+
+        class T:
+            """clock seen by mlzlog"""
+            def __getattr__(self, name):
+                return getattr(_time, name)
+
+            def time(self):
+                return now[0]
+
+            def localtime(self, t=None):
+                return _time.gmtime(now[0] if t is None else t)
+
+            def strftime(self, fmt, t=None):
+                return _time.strftime(fmt, _time.gmtime(now[0]) if t is None else t)
+
+        self.saved = dict(mlzlog_time=mlzlog.time, mlzlog_log=mlzlog.log, logger=fl.logger,
+                          gc_config=generalConfig._config, gc_defaults=generalConfig.defaults,
+                          logger_class=logging.getLoggerClass(), cwd=os.getcwd(),
+                          loggers=set(logging.Logger.manager.loggerDict))
+        os.chdir(self.cwd)
+        mlzlog.time = T()
+        gc = _gen_config(cfg, self.logdir)
+        if cfg['ginit']:
+            generalConfig.testinit(**gc)
+        else:       # nothing configured (generalConfig.initialized is False): everything comes from set_default()
+            generalConfig.testinit()
+            generalConfig.defaults = dict(self.saved['gc_defaults'], **gc)
+        self.console = io.StringIO()
+        self.main = fl.MainLogger()
+        fl.logger = self.main                 # HasComlog takes logdir and root name from this singleton
+        so = sys.stdout
+        sys.stdout = self.console             # ColoredConsoleHandler binds sys.stdout when it is created
+        try:
+            self.main.init(cfg['con'])
+        finally:
+            sys.stdout = so
+        self.nodelog = self.main.log.getChild(NODE, True)      # frappy/server.py:102
+        fl.init_remote_logging(self.nodelog)                    # frappy/server.py:105
+        self.handler = [h for h in self.nodelog.handlers if isinstance(h, fl.RemoteLogHandler)][0]
+
+        class SecNode:
+            def __init__(self):
+                self.modules = {}
+                self.export = []
+                self.name = NODE
+
+            def get_module(self, n):
+                return self.modules[n]
+
+        class Srv:
+            restart = shutdown = None
+
+        self.srv = srv = Srv()
+        srv.secnode = SecNode()
+        srv.dispatcher = self.dispatcher = Dispatcher('d', LoggerStub(), {}, srv)
+        self.generations = []
+        self.mods = {}
+        self.make_modules()
+        self.conns = {c: Conn(c, self.dispatcher) for c in conns}
+        self.seen = self.scan()
+
+    def make_modules(self):
+        """what SecNode.get_module does for every module (also again after a restart of the node)"""
+        from frappy.modules import Communicator, Module
+
+        class Com(Communicator):
+            def communicate(self, command):
+                self.comLog('> %s', command)
+                return ''
+
+        for m in self.modnames:
+            cls = Com if m in COMMODS else Module
+            opts = {'description': '', 'export': m != 'm2'}
+            if m in COMMODS and not (self.cfg['mcomlog'] and self.cfg['gcomlog']):
+                opts['comlog'] = self.cfg['mcomlog']         # else: the default of the property (True)
+            o = cls(m, self.nodelog.getChild(m), opts, self.srv)     # frappy/secnode.py:167 (log.parent = node logger)
+            o.earlyInit()
+            self.srv.secnode.modules[m] = o
+            self.mods[m] = o
+            self.generations.append(o)
+
+    def close(self):
+        import logging
+        import mlzlog
+        from frappy.lib import generalConfig
+        hs = list(self.main.log.handlers) + list(self.nodelog.handlers)
+        for o in self.generations:
+            if getattr(o, '_comLog', None):
+                hs += o._comLog.handlers
+        for h in hs:
+            try:
+                h.close()
+            except Exception:
+                pass
+        ld = logging.Logger.manager.loggerDict
+        for name in set(ld) - self.saved['loggers']:
+            del ld[name]
+        mlzlog.time = self.saved['mlzlog_time']
+        mlzlog.log = self.saved['mlzlog_log']
+        self.fl.logger = self.saved['logger']
+        generalConfig._config = self.saved['gc_config']
+        generalConfig.defaults = self.saved['gc_defaults']
+        logging.setLoggerClass(self.saved['logger_class'])
+        os.chdir(self.saved['cwd'])
+        shutil.rmtree(self.dir, ignore_errors=True)
+
+    # -- alpha
+    def level_table(self):
+        subs = self.handler.subscriptions
+        return {m: {c: subs.get(m, {}).get(conn, 99) for c, conn in self.conns.items()} for m in self.modnames}
+
+    def scan(self):
+        """{(sink, day): lines} for everything below the temporary directory; a file that is not one of the specified
+        sinks is reported under its path"""
+        names = {_time.strftime('%Y-%m-%d', _time.gmtime(DAY0 + (k - 1) * 86400)): k for k in range(1, 12)}
+        where = {os.path.join('log', ROOT): 'main', os.path.join('log', ROOT, NODE): 'node'}
+        prefix = {'main': ROOT, 'node': NODE}
+        for m in COMMODS:
+            where[os.path.join('log', ROOT, 'comlog', NODE, m)] = m
+            prefix[m] = m
+        res = {'console': self.console.getvalue().splitlines()}
+        for dp, _, fns in os.walk(self.dir):
+            rel = os.path.relpath(dp, self.dir)
+            for fn in fns:
+                p = os.path.join(dp, fn)
+                if os.path.islink(p):
+                    continue            # 'current'
+                sink = where.get(rel)
+                day = None
+                if sink and fn.startswith(prefix[sink] + '-') and fn.endswith('.log'):
+                    day = names.get(fn[len(prefix[sink]) + 1:-4])
+                with open(p, encoding='utf-8', errors='replace') as f:
+                    lines = f.read().splitlines()
+                res[(sink, day) if day else 'stray:' + os.path.join(rel, fn)] = lines
+        return res
+
+    def observe_sinks(self, logname, lvl, msg, comline):
+        """which sinks got exactly the expected line since the last look"""
+        import re
+        cur = self.scan()
+        sinks = []
+        for key, lines in sorted(cur.items(), key=str):
+            new = lines[len(self.seen.get(key, ())):]
+            if not new:
+                continue
+            if isinstance(key, str) and key.startswith('stray:'):
+                sinks.append(key)
+                continue
+            name = key if key == 'console' else key[0]
+            if name != 'console' and key[1] != self.day:
+                name += '!day%d' % key[1]
+            if len(new) > 1:
+                name += '!dup'
+            elif name == 'console':
+                if not (logname in new[0] and msg in new[0]):
+                    name += '!content:' + new[0]
+            elif key[0] in COMMODS:
+                if not re.fullmatch(r'\d\d:\d\d:\d\d,\d{3} ' + re.escape(comline or '\0'), new[0]):
+                    name += '!content:' + new[0]
+            elif not re.fullmatch(r'\d\d:\d\d:\d\d,\d{3} : %-7s : %-15s: %s' % (LEVELNAME[lvl], re.escape(logname),
+                                                                           re.escape(msg)), new[0]):
+                name += '!content:' + new[0]
+            sinks.append(name)
+        self.seen = cur
+        return sorted(sinks)
+
+    def dated(self):
+        cur = self.scan()
+        res = {f: [] for f in ['main', 'node'] + COMMODS}
+        for key, lines in cur.items():
+            if isinstance(key, tuple) and lines:      # an empty file holds no record
+                res[key[0]].append(key[1])
+            elif isinstance(key, str) and key.startswith('stray:'):
+                res.setdefault('stray', []).append(key[6:])
+        return {f: sorted(v) for f, v in res.items()}
+
+    def received(self, mod, lvl):
+        to = []
+        for name, c in self.conns.items():
+            n = [m for m in c.msgs if m[0] == 'log']
+            bad = [m for m in n if m[1] != f'{mod}:{lvl}']
+            if bad:
+                to.append(name + '!wrong:' + bad[0][1])
+            elif len(n) == 1:
+                to.append(name)
+            elif len(n) > 1:
+                to.append(name + '!dup')
+        return sorted(to)
+
+    def step(self, a):
+        for c in self.conns.values():
+            del c.msgs[:]
+        self.stepno += 1
+        act = a.get('act') or a.get('ev')
+        obs = {}
+        if act == 'logging':
+            try:
+                rep = self.dispatcher.handle_request(self.conns[a['conn']], ('logging', a['target'], a.get('wire', a['lvl'])))
+                obs['ok'] = rep[0] == 'logging'
+            except Exception:
+                obs['ok'] = False
+        elif act == 'emit':
+            msg = 'E%d %s' % (self.stepno, a['lvl'])
+            self.mods[a['mod']].log.log(LEVELNO[a['lvl']], 'E%d %s', self.stepno, a['lvl'])
+            obs['to'] = self.received(a['mod'], a['lvl'])
+            obs['sinks'] = self.observe_sinks('%s.%s.%s' % (ROOT, NODE, a['mod']), a['lvl'], msg, None)
+        elif act == 'mainemit':
+            msg = 'M%d %s' % (self.stepno, a['lvl'])
+            self.main.log.log(LEVELNO[a['lvl']], 'M%d %s', self.stepno, a['lvl'])
+            obs['sinks'] = self.observe_sinks(ROOT, a['lvl'], msg, None)
+            got = [n for n, c in self.conns.items() if c.msgs]
+            if got:
+                obs['sinks'].append('remote!' + ','.join(got))
+        elif act == 'comlog':
+            cmd = 'x%d' % self.stepno
+            self.mods[a['mod']].communicate(cmd)
+            obs['to'] = self.received(a['mod'], 'comlog')
+            obs['sinks'] = self.observe_sinks('%s.%s.%s' % (ROOT, NODE, a['mod']), 'comlog', '> ' + cmd, '> ' + cmd)
+        elif act == 'nextday':
+            self.now[0] += 86400
+            self.day += 1
+        elif act == 'reinit':
+            self.make_modules()
+        elif act == 'ident':
+            self.dispatcher.handle_request(self.conns[a['conn']], ('*IDN?', None, None))
+        elif act == 'disconnect':
+            self.dispatcher.remove_connection(self.conns[a['conn']])
+        elif act != 'boot':
+            raise ValueError(act)
+        obs['level'] = self.level_table()
+        obs['day'] = self.day
+        obs['dated'] = self.dated()
+        return obs
+
+    def install(self, table):
+        """bring the subscription table into the given (uniform) initial state through ordinary requests"""
+        for m, row in table.items():
+            for c, v in row.items():
+                if v != 99:
+                    self.dispatcher.handle_request(self.conns[c], ('logging', m, v))
+
+
+def _sink_expected(step):
+    e = step['exp']
+    obs = {'level': e['level'], 'day': e['day'], 'dated': {f: sorted(v) for f, v in e['dated'].items()}}
+    if step['act'] == 'logging':
+        obs['ok'] = e['last']['ok']
+    elif step['act'] in ('emit', 'comlog'):
+        obs['to'] = sorted(e['last']['to'])
+    if step['act'] in ('emit', 'comlog', 'mainemit'):
+        obs['sinks'] = sorted(e['last']['sinks'])
+    return obs
+
+
+def _virgin_loss(beh, upto):
+    """spec-side bookkeeping for the signature only: is step `upto` a record for a file sink whose handler has not
+    written since it was created on an earlier day?"""
+    born = {}
+    day = 1
+    for i, st in enumerate(beh[:upto + 1]):
+        sinks = st['exp']['last'].get('sinks', [])
+        if i == upto:
+            return any(born.get(f, 1) and born.get(f, 1) < day for f in sinks if f != 'console')
+        if st['act'] == 'nextday':
+            day += 1
+        elif st['act'] == 'reinit':
+            for m in COMMODS:
+                born[m] = day
+        for f in sinks:
+            if not (born.get(f, 1) and born.get(f, 1) < day):
+                born[f] = 0
+    return False
+
+
+def _replay_sinks(beh):
+    boot_step = beh[0]
+    mods = sorted(boot_step['exp']['level'])
+    conns = sorted(boot_step['exp']['level'][mods[0]])
+    w = SinkWorld(boot_step['cfg'], mods, conns)
+    try:
+        w.install(boot_step['exp']['level'])
+        for i, st in enumerate(beh):
+            got = w.step(st)
+            exp = _sink_expected(st)
+            if got != exp:
+                return {'step': i, 'action': {k: v for k, v in st.items() if k != 'exp'},
+                        'expected': exp, 'observed': got, 'first_record_after_midnight': _virgin_loss(beh, i)}
+    finally:
+        w.close()
+    return None
+
+
+CFG_ALPHABET = {'file': ['nodir', 'debug', 'comlog', 'info', 'info', 'warning', 'error', 'off'],
+                'con': ['debug', 'comlog', 'info', 'warning', 'error'],
+                'gcomlog': [True, True, False], 'ginit': [True, True, True, False], 'mcomlog': [True, True, False],
+                'fdays': [0, 1, 2, 3], 'cdays': [1, 2, 7]}
+
+
+def _random_sink_trace(seed_n):
+    """code -> spec: a random configuration, a random history over all actions; every event carries what was observed"""
+    seed, n = seed_n
+    rnd = random.Random(seed)
+    cfg = {k: rnd.choice(v) for k, v in sorted(CFG_ALPHABET.items())}
+    if cfg['file'] == 'nodir':
+        cfg['gcomlog'] = False
+    conns = ['c1', 'c2', 'c3']
+    w = SinkWorld(cfg, MODS, conns)
+    alive = set(conns)
+    tr = [{'ev': 'boot', 'cfg': cfg, 'haslevel': False}]
+    try:
+        for _ in range(n):
+            r = rnd.random()
+            if r < 0.2 and alive:
+                a = {'ev': 'logging', 'conn': rnd.choice(sorted(alive)), 'target': rnd.choice(MODS + ['.']),
+                     'lvl': rnd.choice(list(LEVELNO) + ['off', 'bogus'])}
+            elif r < 0.45:
+                a = {'ev': 'emit', 'mod': rnd.choice(MODS), 'lvl': rnd.choice(list(LEVELNO))}
+            elif r < 0.55:
+                a = {'ev': 'mainemit', 'lvl': rnd.choice(list(LEVELNO))}
+            elif r < 0.75:
+                a = {'ev': 'comlog', 'mod': rnd.choice(COMMODS)}
+            elif r < 0.85:
+                if w.day >= 4:
+                    continue
+                a = {'ev': 'nextday'}
+            elif r < 0.9:
+                a = {'ev': 'reinit'}
+            elif r < 0.97 and alive:
+                a = {'ev': 'ident', 'conn': rnd.choice(sorted(alive))}
+            elif len(alive) > 1:
+                a = {'ev': 'disconnect', 'conn': rnd.choice(sorted(alive))}
+                alive.discard(a['conn'])
+            else:
+                continue
+            a.update(w.step(a))
+            a['haslevel'] = True
+            tr.append(a)
+    finally:
+        w.close()
+    return tr
 
 
 def run(chk):
